@@ -68,11 +68,19 @@ class _KW:
         return self.f.read(*a)
 
     def close(self):
-        if not self.f.closed and not self._closed_step:
-            self.__dict__['_closed_step'] = True
-            self._fs._step('close', self._path)
-        self._fs._forget(self.f)
-        return self.f.close()
+        try:
+            if not self.f.closed and not self._closed_step:
+                self.__dict__['_closed_step'] = True
+                self._fs._step('close', self._path)
+        finally:
+            # a close that fails still releases the descriptor
+            self._fs._forget(self.f)
+            try:
+                self.f.close()
+            except Exception:
+                if self._closed_step is False:
+                    raise
+        return None
 
     def __enter__(self):
         return self
